@@ -2349,6 +2349,125 @@ func (x *c10Run) ids(w *c10World, opts []c10Opt) {
 	}
 }
 
+// ---------------------------------------------------------------- claimed sender
+
+// the sender id a peer can make the service handler attach: without TLS it is whatever the connection puts in its
+// `id` metadata — the receiver's own id, the leader, another replica, 0, an unconfigured id, the largest id, or none
+var c10Claimed = []struct {
+	id   int
+	what string
+}{{int(c10Rut), "the receiver's own id"}, {int(c10Ldr), "the leader's id"}, {3, "another replica's id"}, {0, "id 0"},
+	{77, "an unconfigured id"}, {1<<32 - 1, "the largest id"}, {-1, "no id"}}
+
+// withClaimed returns m as sent by a peer claiming id: the connection metadata, and the fields of the message that
+// name its sender (the proposer of the block, which Kauri takes as the sender; the contribution id)
+func c10WithClaimed(m *c10Msg, id int, what string) *c10Msg {
+	cp := *m
+	cp.ctxID = id
+	cp.label = m.label + " — claimed sender: " + what
+	uid := uint32(0)
+	if id >= 0 {
+		uid = uint32(id)
+	}
+	switch pb := m.pb.(type) {
+	case *hotstuffpb.Proposal:
+		if pb.GetBlock() != nil {
+			c := proto.Clone(pb).(*hotstuffpb.Proposal)
+			c.Block.Proposer = uid
+			cp.pb = c
+		}
+	case *kauripb.Contribution:
+		c := proto.Clone(pb).(*kauripb.Contribution)
+		c.ID = uid
+		cp.pb = c
+	}
+	return &cp
+}
+
+// claimed: every message kind x every claimed sender x payloads in which nothing verifies: forged and garbage
+// certificates for the newest known block, for an old known block, for the genesis block and for an unknown block,
+// alone in the message (a sync info holding only a QC, only a TC, only an AggQC) and combined; then a sample of
+// every hostile message delivered so far to the configuration.
+func (x *c10Run) claimed(w *c10World, opts []c10Opt, sample int) {
+	rng := x.v.rng
+	n := 0
+	for _, opt := range opts {
+		if opt.aggSt > 0 {
+			continue
+		}
+		cur := x.curView(opt)
+		vb, _ := x.frontier(w, opt)
+		targets := []struct {
+			name string
+			b    *hotstuff.Block
+		}{{"genesis", w.blocks[0]}, {"unknown block", w.orphan}, {"b1", w.blocks[1]}}
+		if vb != nil {
+			targets = append(targets, struct {
+				name string
+				b    *hotstuff.Block
+			}{"newest known block", vb})
+		}
+		garbage := x.sigVariants(w, []byte("m"), []byte("o"), true)[3].sig
+		var payloads []*c10Msg
+		for _, tg := range targets {
+			h := tg.b.Hash()
+			wrong := hotstuffpb.QuorumSignatureToProto(w.combine([]byte("not the block"), 1, 3, 4))
+			for _, fs := range []c10SigV{{"garbage signature", garbage}, {"no signature", nil}, {"a quorum's signature over another message", wrong}} {
+				for _, fv := range []uint64{uint64(tg.b.View()), uint64(cur) + 3} {
+					if fv != uint64(tg.b.View()) && fs.name != "garbage signature" {
+						continue
+					}
+					fq := &hotstuffpb.QuorumCert{Sig: fs.sig, View: fv, Hash: h[:]}
+					what := fmt.Sprintf("forged QC for %s (view %d, %s)", tg.name, fv, fs.name)
+					payloads = append(payloads,
+						&c10Msg{kind: c10NewView, pb: &hotstuffpb.SyncInfo{QC: fq}, label: "new-view holding only a " + what},
+						&c10Msg{kind: c10Timeout, pb: &hotstuffpb.TimeoutMsg{View: uint64(cur), SyncInfo: &hotstuffpb.SyncInfo{QC: fq}, ViewSig: garbage, MsgSig: garbage},
+							label: "timeout with garbage signatures reporting a " + what},
+						&c10Msg{kind: c10Propose, pb: &hotstuffpb.Proposal{Block: &hotstuffpb.Block{Parent: h[:], QC: fq, View: uint64(cur), Commands: c10Batch(90)}},
+							label: "proposal for the current view justified by a " + what})
+					if fs.sig != nil {
+						payloads = append(payloads, &c10Msg{kind: c10Vote, pb: &hotstuffpb.PartialCert{Sig: fs.sig, Hash: h[:]}, label: "vote for " + tg.name + " with " + fs.name})
+					}
+				}
+			}
+			payloads = append(payloads,
+				&c10Msg{kind: c10Vote, pb: &hotstuffpb.PartialCert{Hash: h[:]}, label: "vote for " + tg.name + " without signature"},
+				&c10Msg{kind: c10ReqBlock, pb: &hotstuffpb.BlockHash{Hash: h[:]}, label: "block request for " + tg.name})
+		}
+		payloads = append(payloads,
+			&c10Msg{kind: c10NewView, pb: &hotstuffpb.SyncInfo{TC: &hotstuffpb.TimeoutCert{View: uint64(cur), Sig: garbage}}, label: "new-view holding only a forged TC"},
+			&c10Msg{kind: c10NewView, pb: &hotstuffpb.SyncInfo{AggQC: &hotstuffpb.AggQC{View: uint64(cur), Sig: garbage}}, label: "new-view holding only a forged aggregate QC"},
+			&c10Msg{kind: c10NewView, pb: &hotstuffpb.SyncInfo{}, label: "empty new-view"},
+			&c10Msg{kind: c10Timeout, pb: &hotstuffpb.TimeoutMsg{View: uint64(cur)}, label: "empty timeout"})
+		if opt.kauri {
+			for _, kv := range []uint64{0, uint64(cur)} {
+				payloads = append(payloads, &c10Msg{kind: c10Contrib, pb: &kauripb.Contribution{Signature: garbage, View: kv}, label: fmt.Sprintf("contribution for view %d with a garbage signature", kv)},
+					&c10Msg{kind: c10Contrib, pb: &kauripb.Contribution{View: kv}, label: fmt.Sprintf("contribution for view %d without signature", kv)})
+			}
+		}
+		pool := x.hostile[w.scheme+" "+opt.String()]
+		for _, cl := range c10Claimed {
+			for _, m := range payloads {
+				n++
+				if cl.id != int(c10Rut) && (!x.take(w, n, 6) || (!x.v.Thorough() && cl.id != 0 && n%2 == 0)) {
+					continue // quick tier: the receiver's own id in full, id 0 in full for the cheap schemes, the others halved
+				}
+				x.v.Count("stream:claimed-sender")
+				x.run(w, opt, c10WithClaimed(m, cl.id, cl.what), nil, false)
+			}
+			for k := 0; k < sample && len(pool) > 0; k++ {
+				n++
+				m := pool[rng.Intn(len(pool))]
+				if !x.take(w, n, 6) {
+					continue
+				}
+				x.v.Count("stream:claimed-sender")
+				x.run(w, opt, c10WithClaimed(m, cl.id, cl.what), nil, false)
+			}
+		}
+	}
+}
+
 // hostileSeqs: two or three messages in which nothing verifies, drawn from everything delivered so far to this
 // configuration, go to one fresh replica; the protocol state must not move over the whole sequence.
 func (x *c10Run) hostileSeqs(w *c10World, opts []c10Opt, n int) {
@@ -2689,6 +2808,7 @@ func TestVerifC10(t *testing.T) {
 		optsR := append(append([]c10Opt{}, opts...), c10Opt{agg: true, aggSt: 1}, c10Opt{agg: true, aggSt: 2},
 			c10Opt{cache: true, agg: true, aggSt: 1}, c10Opt{cache: true, agg: true, aggSt: 2})
 		optsR = append(append(optsR, sec...), asyncOpts...)
+		x.claimed(w, append(append([]c10Opt{}, opts...), c10Opt{simple: true, mid: true}, c10Opt{lat: true, mid: true}, c10Opt{async: true, mid: true}), v.Pick(12, 120))
 		nh := v.Pick(90, 900)
 		if s == crypto.NameBLS12 {
 			nh = v.Pick(25, 400)
